@@ -78,6 +78,8 @@ func buildCases(o *vh.Opts) []Case {
 	for i := 0; i < o.N; i++ {
 		cr := r.Fork()
 		switch k := cr.Intn(100); {
+		case k < 5:
+			cases = append(cases, genEnvelope(cr))
 		case k < 45:
 			cases = append(cases, genBytes(cr))
 		case k < 70:
@@ -105,6 +107,8 @@ func runOne(e *env, c *Case) ([]gqlty.Finding, map[string]interface{}) {
 		return e.runFanout(c)
 	case "socket":
 		return e.runSocket(c)
+	case "envelope":
+		return e.runEnvelope(c)
 	case "http":
 		return e.runHTTP(c)
 	case "cancel":
@@ -182,6 +186,9 @@ func main() {
 			}
 		}
 		run.Count(key, nontrivial)
+		if n, ok := res.Obs["envelopes"].(float64); ok {
+			run.Histogram["envelopes-compared-with-the-model"] += int(n)
+		}
 		if c.Stream == "grammar" && len(run.Samples) < 3 && nontrivial {
 			run.Sample(map[string]interface{}{"query": c.Query, "vars": c.Vars, "codes": res.Obs["codes"]})
 		}
@@ -210,13 +217,23 @@ func main() {
 		if end > len(terms) {
 			end = len(terms)
 		}
-		run.WriteCasesV(fmt.Sprintf("cases_%d.v", s), []string{"Lib.Json", "GqlTyping.Types", "GqlTyping.Parse", "GqlTyping.Check15"}, prelude,
+		run.WriteCasesV(fmt.Sprintf("cases_%d.v", s), []string{"Lib.Json", "GqlTyping.Types", "GqlTyping.Parse", "GqlTyping.Envelope", "GqlTyping.Check15"}, prelude,
 			"(mismatches_c15 sch)", 0, terms[s:end])
 	}
 	run.Finish()
 }
 
 func coqTerm(idx int, c *Case, obs map[string]interface{}) string {
+	if c.Stream == "envelope" {
+		var ts []string
+		if t, _ := obs["coq_env"].(string); t != "" {
+			ts = append(ts, fmt.Sprintf("(%d, %s)", idx, t))
+		}
+		if t, _ := obs["coq_http"].(string); t != "" {
+			ts = append(ts, fmt.Sprintf("(%d, %s)", idx, t))
+		}
+		return strings.Join(ts, ";\n")
+	}
 	term, _ := obs["coq"].(string)
 	if term == "" {
 		return ""
